@@ -7,28 +7,62 @@ From Noir Require Import Base.Elem Model.End Model.Framing Proofs.LinkProofs.
 From Coq Require Import NArith.
 Open Scope nat_scope.
 
-(** Batcher: whatever the batch mode, the concatenation of the batches sent plus the buffer
-    is exactly the enqueued sequence — nothing lost, duplicated, reordered or altered. *)
-Theorem C02_batcher_sequence : forall {A} (m : batch_mode) (buf l buf' : list (elem A)) sent,
-  mode_ok m buf -> brun m buf l = (buf', sent) -> concat sent ++ buf' = buf ++ l.
+(** Batcher: whatever the batch mode and WHATEVER THE CLOCK ([clock k] is the reading at the
+    k-th enqueue; only the adaptive mode looks at it), the concatenation of the batches sent
+    plus the buffer is exactly the enqueued sequence — nothing lost, duplicated, reordered
+    or altered. A batcher state is (buffer, last_send). *)
+Theorem C02_batcher_sequence : forall {A} (clock : nat -> N) (m : batch_mode) (k : nat)
+    (bs : list (elem A) * N) (l : list (elem A)) (bs' : list (elem A) * N) sent,
+  mode_ok m (fst bs) -> brun clock m k bs l = (bs', sent) -> concat sent ++ fst bs' = fst bs ++ l.
 Proof. exact @batcher_sequence. Qed.
-Theorem C02_batches_nonempty_and_bounded : forall {A} (n : nat) (buf l buf' : list (elem A)) sent,
-  1 <= n -> length buf < n -> brun (BFixed n) buf l = (buf', sent) ->
-  Forall (fun b => length b <= n) sent /\ length buf' < n.
+Theorem C02_batches_nonempty_and_bounded : forall {A} (clock : nat -> N) (n k : nat)
+    (bs : list (elem A) * N) (l : list (elem A)) (bs' : list (elem A) * N) sent,
+  1 <= n -> length (fst bs) < n -> brun clock (BFixed n) k bs l = (bs', sent) ->
+  Forall (fun b => length b <= n) sent /\ length (fst bs') < n.
 Proof. exact @batcher_fixed_bound. Qed.
+(** the engine's default mode, `Adaptive(n, d)`: every batch has between 1 and n elements,
+    for every clock — one batcher, and every batch sent by an `End` *)
+Theorem C02_adaptive_batches_bounded : forall {A} (clock : nat -> N) (n : nat) (d : N) (k : nat)
+    (bs : list (elem A) * N) (l : list (elem A)) (bs' : list (elem A) * N) sent,
+  1 <= n -> length (fst bs) < n -> brun clock (BAdaptive n d) k bs l = (bs', sent) ->
+  Forall (fun b => 1 <= length b <= n) sent /\ length (fst bs') < n.
+Proof. exact @batcher_adaptive_bound. Qed.
+Theorem C02_adaptive_batch_bound : forall {A} (clock : nat -> N) (t0 : N) (s : strategy) (n : nat) (d : N)
+    (blocks : list nat) (l : list (elem A * N * N)),
+  1 <= n ->
+  Forall (fun '(b, r, batch) => 1 <= length batch <= n)
+         (run (end_machine clock t0 s (BAdaptive n d) blocks) l).
+Proof. exact @adaptive_batch_bound. Qed.
 
 (** End: every receiving replica of every downstream block gets exactly the sequence of
     elements addressed to it ([addressed]: the strategy's choice for data, every replica for
-    control), in emission order, for every strategy, batch mode and number of downstream
-    blocks; everything is delivered at the latest at Terminate. *)
-Theorem C02_link_sequence : forall {A} (s : strategy) (m : batch_mode) (blocks : list nat)
-    (l : list (elem A * N * N)) (hash rnd : N) (b r : nat),
+    control), in emission order, for every strategy, batch mode, number of downstream
+    blocks and EVERY clock ([t0]: reading at setup, [clock k]: reading while the k-th pulled
+    element is processed); everything is delivered at the latest at Terminate. *)
+Theorem C02_link_sequence : forall {A} (clock : nat -> N) (t0 : N) (s : strategy) (m : batch_mode)
+    (blocks : list nat) (l : list (elem A * N * N)) (hash rnd : N) (b r : nat),
   b < length blocks -> r < nth b blocks 0 ->
   (forall x, In x l -> fst (fst x) <> Terminate) ->
-  match m with BFixed n => 1 <= n | BSingle => True end ->
-  received (run (end_machine s m blocks) (l ++ [(Terminate, hash, rnd)])) b r
+  match m with BFixed n => 1 <= n | BAdaptive n _ => 1 <= n | BSingle => True end ->
+  received (run (end_machine clock t0 s m blocks) (l ++ [(Terminate, hash, rnd)])) b r
   = map (fun x => fst (fst x)) (filter (addressed s blocks b r) l) ++ [Terminate].
 Proof. exact @end_link_sequence. Qed.
+(** in particular in the adaptive mode: the clock influences only WHERE the batches are cut,
+    never their content or order — two runs under arbitrary clocks (and adaptive parameters)
+    deliver the same sequence to every receiver *)
+Theorem C02_adaptive_link_sequence : forall {A} (clock : nat -> N) (t0 : N) (s : strategy) (n : nat) (d : N)
+    (blocks : list nat) (l : list (elem A * N * N)) (hash rnd : N) (b r : nat),
+  b < length blocks -> r < nth b blocks 0 ->
+  received (run (end_machine clock t0 s (BAdaptive n d) blocks) (l ++ [(Terminate, hash, rnd)])) b r
+  = map (fun x => fst (fst x)) (filter (addressed s blocks b r) l) ++ [Terminate].
+Proof. exact @adaptive_link_sequence. Qed.
+Theorem C02_adaptive_clock_irrelevant : forall {A} (clock1 : nat -> N) (t01 : N) (clock2 : nat -> N) (t02 : N)
+    (s : strategy) (n1 : nat) (d1 : N) (n2 : nat) (d2 : N)
+    (blocks : list nat) (l : list (elem A * N * N)) (hash rnd : N) (b r : nat),
+  b < length blocks -> r < nth b blocks 0 ->
+  received (run (end_machine clock1 t01 s (BAdaptive n1 d1) blocks) (l ++ [(Terminate, hash, rnd)])) b r
+  = received (run (end_machine clock2 t02 s (BAdaptive n2 d2) blocks) (l ++ [(Terminate, hash, rnd)])) b r.
+Proof. exact @adaptive_clock_irrelevant. Qed.
 
 (** Wire format: the frames of several replicas sharing one connection are decoded back to
     exactly the sequence sent — destination replica, sender block and body of each — for all
@@ -44,12 +78,34 @@ Theorem C02_header_size : forall h, length (encode_header h) = HEADER_SIZE.
 Proof. exact encode_header_length. Qed.
 
 Example C02_example :
-  received (run (end_machine SGroupBy (BFixed 2) [2])
+  received (run (end_machine (fun _ => 0%N) 0%N SGroupBy (BFixed 2) [2])
              [(Item 10%Z, 4%N, 0%N); (Item 11%Z, 5%N, 0%N); (Wm 3%Z, 0%N, 0%N); (Item 12%Z, 6%N, 0%N);
               (FAR, 0%N, 0%N); (@Terminate Z, 0%N, 0%N)]) 0 0
   = [Item 10%Z; Wm 3%Z; Item 12%Z; FAR; Terminate].
 Proof. vm_compute. reflexivity. Qed.
 
+(** `Adaptive(3, 10ms)`, batchers created at 0 ms, the five elements pulled at 0, 5, 20, 21
+    and 40 ms, one receiver. By the rules of `Batcher::enqueue`:
+      k=0 (0 ms)  push 1: 1 < 3, 0 - 0 = 0 is not > 10          -> buffered
+      k=1 (5 ms)  push 2: 2 < 3, 5 - 0 = 5 is not > 10          -> buffered
+      k=2 (20 ms) push 3: 3 >= 3                                 -> batch [1;2;3], last_send := 20
+      k=3 (21 ms) push 4: 1 < 3, 21 - 20 = 1 is not > 10        -> buffered
+      k=4 (40 ms) push 5: 2 < 3, but 40 - 20 = 20 > 10          -> batch [4;5], last_send := 40
+    whereas `Fixed(3)` still holds [4;5] back. *)
+Definition ex_clock (k : nat) : N := nth k [0; 5; 20; 21; 40]%N 0%N.
+Definition ex_items : list (elem Z * N * N) :=
+  [(Item 1%Z, 0%N, 0%N); (Item 2%Z, 0%N, 0%N); (Item 3%Z, 0%N, 0%N); (Item 4%Z, 0%N, 0%N); (Item 5%Z, 0%N, 0%N)].
+Example C02_adaptive_example :
+  run (end_machine ex_clock 0%N SOnlyOne (BAdaptive 3 10) [1]) ex_items
+  = [(0, 0, [Item 1%Z; Item 2%Z; Item 3%Z]); (0, 0, [Item 4%Z; Item 5%Z])] /\
+  run (end_machine ex_clock 0%N SOnlyOne (BFixed 3) [1]) ex_items
+  = [(0, 0, [Item 1%Z; Item 2%Z; Item 3%Z])].
+Proof. vm_compute. split; reflexivity. Qed.
+
 Print Assumptions C02_batcher_sequence.
 Print Assumptions C02_link_sequence.
+Print Assumptions C02_adaptive_batch_bound.
+Print Assumptions C02_adaptive_batches_bounded.
+Print Assumptions C02_adaptive_link_sequence.
+Print Assumptions C02_adaptive_clock_irrelevant.
 Print Assumptions C02_wire_round_trip.
